@@ -107,6 +107,16 @@ def op_bar68(ctx, s, t):
     return [b.sequence] if ok else []
 
 
+def op_bar22(ctx, s, t):
+    ok, b = call(Bar, s, 2, 2)
+    return [b.sequence, b.copy().sequence] if ok else []
+
+
+def op_bar32(ctx, s, t):
+    ok, b = call(Bar, s, 3, 2)
+    return [b.sequence] if ok else []
+
+
 def op_transpose(ctx, s, t):
     s.transpose(ctx.int(f"{t}n", -3, 3))
     return [s]
@@ -146,7 +156,7 @@ def op_copy(ctx, s, t):
 
 OPS = {"quantise_generated_grid": op_quantise_generated_grid, "quantise_shifted_default_grid": op_quantise_shifted_default_grid,
        "quantise_note_lengths_generated_values": op_qnl_generated_values, "quantise": op_quantise, "quantise_note_lengths": op_qnl, "quantise_note_lengths_noext": op_qnl_noext,
-       "normalise": op_normalise, "pad": op_pad, "split": op_split, "bar44": op_bar, "bar68": op_bar68,
+       "normalise": op_normalise, "pad": op_pad, "split": op_split, "bar44": op_bar, "bar68": op_bar68, "bar22": op_bar22, "bar32": op_bar32,
        "transpose": op_transpose, "cutoff": op_cutoff, "scale2": op_scale2, "scale3": op_scale3,
        "refresh": op_refresh, "set_channel": op_set_channel, "copy": op_copy}
 
